@@ -317,27 +317,78 @@ def iabc_identity(chk, mod, lib):
 # ---------------------------------------------------------------------------- symmetry / homogeneity
 
 def pair_paths(chk, tag, ex, p1s, p2s, extra, relation, family, sample, on_sat=None, timeout=30000):
-    n = 0
+    """relational obligations over all jointly feasible pairs of paths (discharged in parallel)"""
+    cands = []
     for p1 in p1s:
         for p2 in p2s:
             if p1.outcome[0] != 'ret' or p2.outcome[0] != 'ret':
                 continue
-            pc = extra + p1.pc + p2.pc
-            if chk.solve(pc, 10000)[0] != 'sat':
+            cands.append((p1, p2))
+    cong = congruence(ex) + quotient_equalities(ex)
+    feas = chk_parallel_feasible(chk, [extra + p1.pc + p2.pc for p1, p2 in cands])
+    jobs = []
+    n = 0
+    for (p1, p2), ok in zip(cands, feas):
+        if not ok:
+            continue
+        n += 1
+        r1, r2 = p1.retval, p2.retval
+        if isinstance(r1, float) or isinstance(r2, float):
+            if isinstance(r1, float) and isinstance(r2, float):
                 continue
-            n += 1
-            r1, r2 = p1.retval, p2.retval
-            if isinstance(r1, float) or isinstance(r2, float):
-                if isinstance(r1, float) and isinstance(r2, float):
-                    continue
-                chk.record('%s#%d' % (tag, n), 'inconclusive', 'one side non-finite')
-                chk.inconclusive.append('%s#%d' % (tag, n))
-                continue
-            cons = pc + congruence(ex) + quotient_equalities(ex) + [z3.Not(relation(zr(r1), zr(r2)))]
-            r, m = chk.prove('%s#%d' % (tag, n), cons, timeout_ms=timeout, family=family, sample=sample)
-            if r == 'sat' and on_sat:
-                on_sat(m, '%s#%d' % (tag, n))
+            chk.record('%s#%d' % (tag, n), 'inconclusive', 'one side non-finite')
+            chk.inconclusive.append('%s#%d' % (tag, n))
+            continue
+        cons = extra + p1.pc + p2.pc + cong + [z3.Not(relation(zr(r1), zr(r2)))]
+        jobs.append({'name': '%s#%d' % (tag, n), 'constraints': cons, 'family': family, 'sample': sample})
+    res = chk.prove_many(jobs, timeout_ms=timeout)
+    for j, (r, m) in zip(jobs, res):
+        if r == 'sat' and on_sat:
+            on_sat(m, j['name'])
     return n
+
+
+def chk_parallel_feasible(chk, pcs):
+    """[bool]: is each path-condition conjunction satisfiable (unknown counts as feasible)"""
+    import os as _os
+    import json as _json
+    from symx import smt
+    n = len(pcs)
+    if n == 0:
+        return []
+    W = max(1, min(int(_os.environ.get('VERIF_JOBS', '12')), n))
+    out = [True] * n
+    pipes = []
+    import sys as _sys
+    _sys.stdout.flush()
+    for w in range(W):
+        r_, w_ = _os.pipe()
+        pid = _os.fork()
+        if pid == 0:
+            _os.close(r_)
+            res = []
+            try:
+                for i in range(w, n, W):
+                    st, m, dt = smt.check(pcs[i], 10000, 'z3')
+                    res.append([i, st != 'unsat'])
+            except BaseException:
+                pass
+            with _os.fdopen(w_, 'w') as f:
+                f.write(_json.dumps(res))
+            _os._exit(0)
+        _os.close(w_)
+        pipes.append((pid, r_))
+    for pid, r_ in pipes:
+        with _os.fdopen(r_) as f:
+            data = f.read()
+        _os.waitpid(pid, 0)
+        try:
+            for i, ok in _json.loads(data or '[]'):
+                out[i] = ok
+        except ValueError:
+            pass
+    chk.queries += n
+    return out
 
 
 def symmetry(chk, mod, lib):
@@ -387,7 +438,15 @@ def homogeneity(chk, mod, lib):
         vs = [z3.Real('h%d' % i) for i in range(3)]
         dom = [z3.And(v >= zr(Fr(1, 100)), v <= zr(Fr(100))) for v in vs] + [vs[0] <= vs[1], vs[1] <= vs[2],
                                                                                k >= zr(Fr(1, 10)), k <= 10]
-        ex = executor(mod, RealDom(), ufs=UFS)
+        # the scale-free kernels Ixy(x/z, y/z) and phi_uv(x/z, y/z) are uninterpreted here: homogeneity is a
+        # property of how the public functions feed and rescale them
+        ufs = dict(UFS)
+        for n_ in mod.functions:
+            if n_.endswith('_GLOBAL__N_16phi_uvEdd'):
+                ufs[n_] = uf('phi_uv')
+            if n_.endswith('_GLOBAL__N_13IxyEdd'):
+                ufs[n_] = uf('Ixy')
+        ex = executor(mod, RealDom(), ufs=ufs)
         st = ex.start(mangle_fn(name, SIG[name]), vs)
         st.pc += dom
         base = ex.explore(st)
@@ -478,10 +537,10 @@ def run(chk):
         translator_validation(chk, mod, lib, mangle_fn(name, SIG[name]), vec, label=name)
     translator_validation(chk, mod, lib, mangle_fn('Iabc', 'ddd'), [(1.0, 2.0, 3.0), (1.0, 1.0, 2.0), (3.0, 1.0, 1.00001), (0.0, 1.0, 2.0)], label='Iabc')
     translator_validation(chk, mod, lib, mangle_fn('Phi', 'ddd'), [(1.0, 2.0, 3.0), (1.0, 2.0, 30.0), (3.0, 3.0, 1.0), (1.0, 1.0, 1.0)], label='Phi')
-    identities(chk, mod, lib)
-    iabc_identity(chk, mod, lib)
-    zero_limits(chk, mod, lib)
-    symmetry(chk, mod, lib)
-    homogeneity(chk, mod, lib)
+    import time as _t
+    for step in (identities, iabc_identity, zero_limits, symmetry, homogeneity):
+        t0 = _t.time()
+        step(chk, mod, lib)
+        chk.extra.setdefault('step_seconds', {})[step.__name__] = round(_t.time() - t0, 1)
     from . import C02b
-    C02b.run(chk, mod, lib)
+    C02b.run(chk, harness_module('h_ff'), lib)
